@@ -6,7 +6,7 @@ from lib.stubs import RecStream
 LEVEL = 'other'
 MANIFEST = {'category': 'other', 'engine': 'symx+z3',
  'technique': 'symbolic execution of the real main.main / file_input_main / piped_input_main / run_program / _Subprocess.run over a sequentialised environment model (fake subprocess, thread, pipe, text stream): the stream, the chunking of the child\'s writes, the point at which the child runs, the exit status (symbolic integer) and the program\'s argument words (opaque tokens) are explored',
- 'text': 'For every stream of <= 3 lines (quick) / 4 (thorough) from a pool (messages on two tagged connections, chatter, blank, final line without newline), every chunking of the child\'s writes (whole lines or split mid-line), every modelled schedule (child runs to completion before the parent reads / when the parent first blocks / one chunk per blocking read), both --supress settings: file, pipe and run mode produce identical out and err items; the child is started exactly once with its argument words verbatim (identical objects, words spelled like our own options included), an environment that is the parent\'s plus WAYLAND_DEBUG=1 and the library directory prepended to LD_LIBRARY_PATH, stderr = the pipe\'s write end and no stdout/stdin redirection; every line the child wrote is shown before the first prompt; main exits with the child\'s status for every status in 0..255 (symbolic).',
+ 'text': 'For every stream of <= 3 lines (quick) / 4 (thorough) from a pool (messages on two tagged connections, chatter, blank, final line without newline), every chunking of the child\'s writes (whole lines or split mid-line), every modelled schedule (child runs to completion before the parent reads / when the parent first blocks / one chunk per blocking read; the child closing its stderr at exit or long before it exits, where `long` means longer than any join timeout), both --supress settings: file, pipe and run mode produce identical out and err items; the child is started exactly once with its argument words verbatim (identical objects, words spelled like our own options included), an environment that is the parent\'s plus WAYLAND_DEBUG=1 and the library directory prepended to LD_LIBRARY_PATH, stderr = the pipe\'s write end and no stdout/stdin redirection; every line the child wrote is shown before the first prompt; main exits with the child\'s status for every status in 0..255 (symbolic).',
  'note': 'A sequentialised model, stated as such: real byte chunking by the kernel, TextIOWrapper line reassembly, real thread scheduling around join(timeout=1) and real exit statuses are kernel / C library behaviour and are NOT decided here. Trusted: the environment stubs in this file, lib/symx.py.'}
 EXPLANATION = MANIFEST['text']
 ASSUMPTIONS = ['FakeTextIO.readline returns complete lines, a final fragment at EOF, and blocks while the write end is open (what io.TextIOWrapper over a pipe does)',
@@ -31,6 +31,68 @@ class Pipe:
     def write(self, s):
         assert self.write_open
         self.buf += s
+
+
+class Worker:
+    """the helper thread of run mode as a real thread that runs only while the parent waits for it (strict baton passing), so
+    that every interleaving is a deterministic, replayable schedule"""
+
+    def __init__(self):
+        import threading
+        self.to_worker = threading.Semaphore(0)
+        self.to_main = threading.Semaphore(0)
+        self.finished = False
+        self.started = False
+        self.at = None
+        self.target = None
+        self.error = None
+        self.thread = None
+        self.killed = False
+
+    def start(self):
+        import threading
+        self.started = True
+        self.thread = threading.Thread(target=self._body, daemon=True)
+        self.thread.start()
+
+    def _body(self):
+        self.to_worker.acquire()
+        try:
+            if not self.killed:
+                self.target()
+        except BaseException as e:
+            self.error = e
+        self.finished = True
+        self.at = 'finished'
+        self.to_main.release()
+
+    def pause(self, where):
+        """called on the worker: hand the baton back to the parent"""
+        if self.killed:
+            return
+        self.at = where
+        self.to_main.release()
+        self.to_worker.acquire()
+
+    def resume(self, reason=''):
+        """called on the parent: let the worker run until it pauses or finishes; False if it cannot make progress"""
+        if not self.started or self.finished:
+            return False
+        self.to_worker.release()
+        if not self.to_main.acquire(timeout=20):
+            raise Deadlock('the helper thread did not come back')
+        if self.error is not None:
+            e, self.error = self.error, None
+            raise e
+        return True
+
+    def shutdown(self):
+        self.killed = True
+        n = 0
+        while self.started and not self.finished and n < 50:
+            n += 1
+            self.to_worker.release()
+            self.to_main.acquire(timeout=5)
 
 
 class FakeTextIO:
@@ -160,23 +222,67 @@ def modes(ctx, case):
                         chunks += [l[:len(l) // 2], l[len(l) // 2:]]
                     elif l:
                         chunks.append(l)
+                linger = ctx.choose([False, True], 'child_closes_stderr_long_before_exiting') if part == 'stream' else False
                 pipe = Pipe()
                 calls = []
-                st = {'started': False, 'done': False, 'closed_fds': [], 'target': None, 'fdopened': []}
+                st = {'started': False, 'closed_fds': [], 'fdopened': [], 'parent_fd': True, 'child_fd': True}
+                W = Worker()
+
+                def sync_pipe():
+                    pipe.write_open = st['parent_fd'] or st['child_fd']
+
+                def child_body():
+                    """the child process, executed inside whatever call waits for it (subprocess.run / Popen.wait); it hands the
+                    baton back to the parent at every point where real time would pass"""
+                    for c in list(chunks):
+                        pipe.write(c)
+                        chunks.remove(c)
+                        if sched == 'chunk-per-block':
+                            W.pause('wrote-chunk')
+                    st['child_fd'] = False if linger else st['child_fd']
+                    sync_pipe()
+                    if linger:
+                        W.pause('lingering')            # stderr closed, process still running for a long time
+                    st['child_fd'] = False
+                    st['child_exited'] = True
+                    sync_pipe()
 
                 class FakeCompleted:
                     returncode = status
 
+                class FakePopen:
+                    def __init__(self, args, **kw):
+                        calls.append((args, kw))
+                        self.returncode = None
+                        self.args = args
+
+                    def wait(self, timeout=None):
+                        if self.returncode is None:
+                            child_body()
+                            self.returncode = status
+                        return self.returncode
+
+                    def poll(self):
+                        return self.returncode
+
+                    def communicate(self, *a, **k):
+                        self.wait()
+                        return (None, None)
+
+                    def __enter__(self):
+                        return self
+
+                    def __exit__(self, *a):
+                        self.wait()
+
                 class FakeSubprocessModule:
+                    Popen = FakePopen
+                    PIPE, STDOUT, DEVNULL = -1, -2, -3
+
                     @staticmethod
                     def run(args, **kw):
                         calls.append((args, kw))
-                        # the child writes its output; under chunk-per-block it is interrupted by the reader between chunks
-                        if sched != 'chunk-per-block':
-                            for c in chunks:
-                                pipe.write(c)
-                            chunks[:] = []
-                        st['child_exited'] = True
+                        child_body()
                         return FakeCompleted()
 
                 class FakeOs:
@@ -196,39 +302,41 @@ def modes(ctx, case):
                     def close(fd):
                         st['closed_fds'].append(fd)
                         if fd == 1002:
-                            pipe.write_open = False
+                            st['parent_fd'] = False
+                            sync_pipe()
 
-                def run_child():
-                    if st['done']:
-                        return False
-                    if sched == 'chunk-per-block' and chunks:
-                        pipe.write(chunks.pop(0))
-                        return True
-                    st['done'] = True
-                    st['target']()
-                    return True
+                def on_block():
+                    # the parent's read blocks: real time passes, the worker thread / the child make progress
+                    return W.resume(reason='reader-blocked')
+                pipe.on_block = on_block
 
                 class FakeThread:
                     def __init__(self, name=None, target=None, **kw):
-                        st['target'] = target
+                        W.target = target
 
                     def start(self):
                         st['started'] = True
+                        W.start()
                         if sched == 'child-first':
-                            run_child()
-                        else:
-                            pipe.on_block = run_child
+                            # the child runs as far as it can before the parent reads anything
+                            while not W.finished and W.at != 'lingering':
+                                if not W.resume(reason='head-start'):
+                                    break
 
                     def join(self, timeout=None):
                         st['joined'] = True
-                        while not st['done']:
-                            run_child()
+                        while not W.finished:
+                            if timeout is not None and W.at == 'lingering':
+                                return                     # the child is still running when the timeout expires
+                            if not W.resume(reason='join'):
+                                break
 
                     def is_alive(self):
-                        return not st['done']
+                        return not W.finished
 
                 class FakeThreading:
                     Thread = FakeThread
+                info['worker'] = W
                 runner.subprocess, runner.os, runner.threading = FakeSubprocessModule, FakeOs, FakeThreading
                 a = mkargs(Mode.RUN)
                 info['mode'] = a.mode
@@ -238,6 +346,7 @@ def modes(ctx, case):
                     except SystemExit as e:
                         code = e.code
                 info.update(calls=calls, st=st, sched=sched)
+                W.shutdown()
         finally:
             main.sys = saved[5]
             if saved[4] is None:
@@ -258,6 +367,7 @@ def modes(ctx, case):
     ctx.check('pipe mode shows exactly what file mode shows', p_out == f_out and [e for e in p_err] == [e for e in f_err])
     ctx.check('run mode shows exactly what file mode shows (every chunking, every schedule)', r_out == f_out and r_err == f_err)
     calls, st = r_info['calls'], r_info['st']
+    ctx.check('the helper thread is joined, not abandoned', r_info['worker'].finished)
     ctx.check('the program is started exactly once', len(calls) == 1 and st['started'])
     if len(calls) == 1:
         args, kw = calls[0]
@@ -290,7 +400,7 @@ def obligations(tier):
     cases = [(0, 0, 'stream')] + [(n, f, 'stream') for n in range(1, nmax + 1) for f in range(len(POOL))]
     cases += [(1, 0, 'child'), (2, 4, 'child'), (0, 0, 'child')]
     cases.sort(key=lambda c: -c[0])
-    bounds = ('stream part: streams of <= %d lines from a pool of %d, last line with/without newline, each line whole or split mid-line, 3 schedules, --supress on/off; '
+    bounds = ('stream part: streams of <= %d lines from a pool of %d, last line with/without newline, each line whole or split mid-line, 3 schedules, child closing its stderr at exit or long before exiting, --supress on/off; '
               'child part: 2 environments x library directory set or not x 2 extra argument words from {opaque, -r, -g, --supress, -l}; exit status symbolic in [0,256) throughout' % (nmax, len(POOL)))
     return [Ob('three-modes', 'symx', 'file = pipe = run; child started verbatim with the right environment and stdio; output before prompt; exit status', FUNCS, bounds, modes, cases=cases,
                stubs=['subprocess / threading / os.pipe / os.fdopen / os.close / os.environ replaced in runner.py', 'open() and sys.stdin replaced in main.py', 'protocol.load_all stubbed'],
